@@ -278,6 +278,11 @@ func (n *WorkflowNode) AddDependency(fromNodeKey string) *WorkflowNode {
 //
 //	node.SetStaticValue(FieldPath{"query"}, "static query")
 func (n *WorkflowNode) SetStaticValue(path FieldPath, value any) *WorkflowNode {
+	if n.g.compiled {
+		// like an input declared after Compile: refused, reported by the next Compile
+		n.addInputs = append(n.addInputs, func() error { return ErrGraphCompiled })
+		return n
+	}
 	n.staticValues[path.join()] = value
 	return n
 }
